@@ -101,6 +101,7 @@ pub const TEMPLATES: &[&str] = &[
     "IFS=⟦:⟧; x=a:b; echo $x",
     "HISTSIZE=⟦1⟧; COLUMNS=⟦80⟧; LINES=⟦24⟧; echo ok",
     "PS4=⟦+⟧; set -x; echo a; set +x",
+    "PS4='⟦+⟧$(echo x) '; set -x; echo hi; set +x",
     // quoting and substitutions
     "echo \"⟦a⟧\" '⟦a⟧' $'⟦\\x41⟧' $\"⟦a⟧\"",
     "echo $'\\u⟦00e9⟧ \\U⟦0001F600⟧ \\⟦101⟧ \\c⟦a⟧ \\x⟦41⟧'",
@@ -114,6 +115,8 @@ pub const TEMPLATES: &[&str] = &[
     "echo {a,⟦b⟧,c}{1,2}",
     "echo {⟦a⟧..⟦e⟧}",
     "echo {⟦01⟧..⟦10⟧}",
+    "echo {⟦a⟧..⟦e⟧..⟦2⟧}",
+    "echo {⟦e⟧..⟦a⟧..⟦-2⟧} {⟦-5⟧..⟦-9⟧..⟦2⟧}",
     "echo ~ ~/⟦a⟧ ~+ ~- ~⟦root⟧ ~⟦1⟧ ~+⟦1⟧ ~-⟦1⟧",
     "x=~/⟦a⟧:~/b; echo $x",
     // globbing
@@ -145,6 +148,8 @@ pub const TEMPLATES: &[&str] = &[
     "printf -v ⟦x⟧ '%s' ⟦a⟧; echo $x",
     "printf '%⟦1⟧$s\\n' a",
     "printf ⟦%s⟧ a",
+    "printf '⟦\\c⟧%s' a b; printf '%s⟦\\c⟧x' a b; printf '%b' '⟦a\\cb⟧' c",
+    "printf '%⟦*⟧s|' ⟦3⟧ ⟦a⟧ ⟦b⟧",
     "read -t ⟦1⟧ x </dev/null; echo $?",
     "read -n ⟦1⟧ x <<<abc; echo $x",
     "read -N ⟦1⟧ x <<<abc; echo $x",
@@ -163,6 +168,7 @@ pub const TEMPLATES: &[&str] = &[
     "set -- ⟦a⟧; set -o ⟦errexit⟧; set +o ⟦errexit⟧; set -⟦u⟧; set +⟦u⟧; echo $1",
     "shopt -s ⟦extglob⟧; shopt -u ⟦extglob⟧; shopt -q ⟦extglob⟧; echo $?",
     "alias ⟦a⟧=⟦b⟧; alias; unalias ⟦a⟧",
+    "shopt -s expand_aliases\nalias e=⟦'echo a'⟧ f=⟦'e '⟧\ne ⟦b⟧\nf e",
     "trap '⟦:⟧' ⟦EXIT⟧; trap -p; trap - ⟦EXIT⟧",
     "trap ⟦:⟧ ⟦0⟧ ⟦2⟧; trap",
     "wait ⟦1⟧; echo $?",
@@ -171,6 +177,8 @@ pub const TEMPLATES: &[&str] = &[
     "getopts ⟦ab:⟧ o ⟦-a⟧; echo $o $OPTIND",
     "mapfile -n ⟦1⟧ -s ⟦0⟧ -O ⟦0⟧ -t a <<<$'x\\ny'; echo ${a[@]}",
     "mapfile -d ⟦x⟧ -c ⟦1⟧ -C ⟦:⟧ a <<<axb; echo ${#a[@]}",
+    "mapfile -O ⟦0⟧ a <<<$'x\\ny'; echo ${#a[@]}",
+    "a=([⟦1⟧]=x y); a[⟦2⟧]=z; a+=(w); echo ${!a[@]}",
     "history ⟦1⟧; echo $?",
     "pushd ⟦.⟧ >/dev/null; popd +⟦0⟧ >/dev/null; dirs +⟦0⟧; dirs -⟦0⟧",
     "cd ⟦.⟧; pwd >/dev/null; cd -⟦P⟧ .; echo $?",
@@ -221,6 +229,11 @@ pub const BOUNDARY: &[&str] = &[
     "0x",
     "-",
     "*",
+    "18446744073709551615",
+    "65536",
+    "''",
+    "4294967295",
+    "2147483647",
 ];
 
 pub fn long_word(tier: Tier) -> String {
@@ -337,6 +350,11 @@ pub fn val_name(i: usize) -> String {
         12 => "0x".into(),
         13 => "dash".into(),
         14 => "star".into(),
+        15 => "u64max".into(),
+        16 => "65536".into(),
+        17 => "quoted-empty".into(),
+        18 => "u32max".into(),
+        19 => "i32max".into(),
         _ => "longword".into(),
     }
 }
